@@ -5,6 +5,8 @@ import (
 	"slices"
 	"strconv"
 
+	"github.com/emirpasic/gods/v2/containers"
+
 	"github.com/emirpasic/gods/v2/lists"
 	"github.com/emirpasic/gods/v2/maps"
 	"github.com/emirpasic/gods/v2/sets"
@@ -50,7 +52,7 @@ type idxPair[T any] struct {
 }
 
 func enumerateIdx[T comparable](op Op, o *Oracle, d *Dom[T], en *idxEnumA[T], seq []idxPair[T],
-	obs func() string, wrap func(result any, model []T) Subject, mutateRecv func()) bool {
+	obs func() string, wrap func(result any, model []T) Subject, insertAll func(xs []T) []T, mutateRecv func()) bool {
 	p, k := op.A[0], op.A[1]
 	pred := idxPred(d, p, k)
 	ps := func(x idxPair[T]) string { return strconv.Itoa(x.i) + ":" + d.Str(x.v) }
@@ -93,7 +95,7 @@ func enumerateIdx[T comparable](op Op, o *Oracle, d *Dom[T], en *idxEnumA[T], se
 			}
 		}
 		gi, gv := en.Find(pred)
-		if gi != want.i || gv != want.v {
+		if gi != want.i || d.Str(gv) != d.Str(want.v) {
 			o.Fail("C14", "find", "Find(pred %d,%d)=(%d,%s), want (%d,%s) over %v", p, k, gi, d.Str(gv), want.i, d.Str(want.v), mapS(seq, ps))
 		}
 	case "Select", "Map":
@@ -117,6 +119,13 @@ func enumerateIdx[T comparable](op Op, o *Oracle, d *Dom[T], en *idxEnumA[T], se
 		rs := wrap(res, model)
 		if g, w := rs.Obs(), rs.ModelObs(); g != w {
 			o.Fail("C14", "result-content", "%s(%d,%d) over %v returned %s, want %s", op.N, p, k, mapS(seq, ps), g, w)
+			return true
+		}
+		// "built by inserting the ... elements in iteration order": differential against the library's
+		// own insertion into a fresh container of the same kind (exact elements, not only classes)
+		ref := insertAll(model)
+		if g, w := joinS(res.(containers.Container[T]).Values(), d.Str), joinS(ref, d.Str); g != w {
+			o.Fail("C14", "result-vs-repeated-insertion", "%s(%d,%d) over %v returned %s, inserting the same elements one by one into a fresh container gives %s", op.N, p, k, mapS(seq, ps), g, w)
 			return true
 		}
 		// the result is a working container of the same discipline (and comparator): mutate it under the
@@ -156,6 +165,13 @@ func (s *listSubj[T]) Enumerate(op Op, o *Oracle) bool {
 			n.l, n.m = res.(lists.List[T]), model
 			return n
 		},
+		func(xs []T) []T {
+			f := makeList[T](s.cfg.Kind)
+			for _, x := range xs {
+				f.Add(x)
+			}
+			return f.Values()
+		},
 		func() {
 			s.Step(Op{ID: op.ID, N: "Add", A: []int{derive(op.ID, 1, len(s.d.Tab))}}, o)
 			s.Step(Op{ID: op.ID, N: "Set", A: []int{0, derive(op.ID, 2, len(s.d.Tab))}}, o)
@@ -179,6 +195,13 @@ func (s *setSubj[T]) Enumerate(op Op, o *Oracle) bool {
 			n.s = res.(sets.Set[T])
 			n.modelAdd(model) // inserting in iteration order: sets deduplicate (and TreeSet re-sorts)
 			return n
+		},
+		func(xs []T) []T {
+			f := newSetSubj(s.cfg, s.d, false).s
+			for _, x := range xs {
+				f.Add(x)
+			}
+			return f.Values()
 		},
 		func() {
 			s.Step(Op{ID: op.ID, N: "Add", A: []int{derive(op.ID, 1, len(s.d.Tab)), derive(op.ID, 2, len(s.d.Tab))}}, o)
@@ -242,16 +265,18 @@ func (s *kvSubj[K]) Enumerate(op Op, o *Oracle) bool {
 			}
 		}
 		gk, gv := en.Find(pred)
-		if gk != want.k || gv != want.v {
+		if d.Str(gk) != d.Str(want.k) || gv != want.v {
 			o.Fail("C14", "find", "Find(pred %d,%d)=(%s,%q), want (%s,%q) over %v", p, k, d.Str(gk), gv, d.Str(want.k), want.v, mapS(seq, ps))
 		}
 	case "Select", "Map":
 		rs := newKVSubj(s.cfg, s.d, s.vd, false)
+		ref := newKVSubj(s.cfg, s.d, s.vd, false).m // the library's own repeated Put into a fresh map
 		var res maps.Map[K, string]
 		if op.N == "Select" {
 			for _, x := range seq {
 				if pred(x.k, x.v) {
 					rs.modelPut(x.k, x.v)
+					ref.Put(x.k, x.v)
 				}
 			}
 			res = en.Select(pred)
@@ -260,6 +285,7 @@ func (s *kvSubj[K]) Enumerate(op Op, o *Oracle) bool {
 			for _, x := range seq {
 				k2, v2 := f(x.k, x.v)
 				rs.modelPut(k2, v2) // colliding keys or values resolve as repeated Put would
+				ref.Put(k2, v2)
 			}
 			res = en.Map(f)
 		}
@@ -271,6 +297,10 @@ func (s *kvSubj[K]) Enumerate(op Op, o *Oracle) bool {
 		rs.m = res
 		if g, w := rs.Obs(), rs.ModelObs(); g != w {
 			o.Fail("C14", "result-content", "%s(%d,%d) over %v returned %s, want %s", op.N, p, k, mapS(seq, ps), g, w)
+			return true
+		}
+		if g, w := joinS(res.Keys(), d.Str)+joinS(res.Values(), strconv.Quote), joinS(ref.Keys(), d.Str)+joinS(ref.Values(), strconv.Quote); g != w {
+			o.Fail("C14", "result-vs-repeated-put", "%s(%d,%d) over %v returned %s, putting the same pairs one by one into a fresh map gives %s", op.N, p, k, mapS(seq, ps), g, w)
 			return true
 		}
 		so := subOracle(o, resultTags...)
